@@ -281,6 +281,11 @@ def run_check(modname, tier, seed, canary=None, quiet=False):
     validated = 0
     mismatches = []
     val_violations = []  # violations found while validating paths on the plain code (already reproduced)
+    from symx import selfcheck
+
+    sc_ok, sc_info = selfcheck.run(int(seed))
+    if not sc_ok:
+        errors.append(("engine-selfcheck", repr(sc_info)[:600]))
     pre_violations = []
     if hasattr(mod, "precheck"):
         pre_violations = list(mod.precheck())
@@ -492,6 +497,7 @@ def run_check(modname, tier, seed, canary=None, quiet=False):
         "if_converted": ifconv or {},
         "known_findings_matched": sorted(known_hits),
         "path_mismatches": len(mismatches),
+        "engine_selfcheck": sc_info,
         "problems": problems,
         "nproc": NPROC,
     }
